@@ -32,7 +32,8 @@ ASSUMPTIONS = ["number -> f32 conversion (`i32 as f32`, str::parse::<f32>) is an
                "HashMap<u16, SmallString> is represented by its content sorted by code; usize is 64 bits"]
 RULE = ("widths: W arrays of 0-12 groups (both forms, lists inline or by reference) over codes 0..65535 with disjoint ranges, "
         "every permutation of the groups when there are at most 4, integer and real widths, DW present or absent, CIDFontType0/2 directly "
-        "and through Type0; queried at every group boundary +-1, inside, 0, 65535, 65536 and far outside; overlapping groups (model only); "
+        "and through Type0; queried at every group boundary +-1, inside, 0, 65535, 65536 and far outside; zero-length list groups `c [ ]` "
+        "(direct and by reference, at code 0 and elsewhere, alone and at every position among ordinary groups); overlapping groups (model only); "
         "simple fonts with/without FirstChar, Widths, FontDescriptor, MissingWidth; hostile arrays (negative / huge codes, empty lists, "
         "missing operands, wrong types, dangling references) judged by 'no panic, no hang' and against the model.  "
         "CMaps: maps of 0-300 entries (runs, isolated codes, supplementary planes, empty strings) through write_cmap "
@@ -288,6 +289,41 @@ def widths_cases(rng, tier):
                 groups.append(S.GRange(a, a + rng.randint(0, 12), num(rng)))
         extra = {}
         yield cid_case(rng, w_array(groups, extra, [7]), 1, list(range(0, 64)), None, extra, tags=["cid", "overlap"])
+
+
+def zero_length_cases(rng, tier):
+    """`first [ ]` — a list group of no widths, written directly and through a reference, at code 0 and elsewhere, alone and
+    between ordinary groups: it covers the empty code range (Font/Spec.v wf_group admits it), assigns nothing, and every other
+    group keeps its widths (§9.7.4.3); expected values from S.w_spec as for every well-formed array"""
+    def case(groups, dw, tags):
+        extra = {}
+        w = w_array(groups, extra, [7])
+        codes = probe_codes(groups, rng)
+        dwb = F32_1000 if dw is None else S.num_bits(W.ser(dw))
+        return cid_case(rng, w, dw, codes, [S.w_spec(spec_groups(groups), dwb, c) for c in codes], extra, type0=rng.random() < 0.3,
+                        tags=["cid", "zero-length-list"] + tags, subtype=rng.choice(["CIDFontType2", "CIDFontType0"]))
+    for byref in (False, True):
+        how = ["by-reference" if byref else "direct"]
+        for a in (0, 1, 10, 300, 65535):
+            z = lambda: S.GList(a, [], byref=byref)
+            at = ["at-0" if a == 0 else "at-nonzero"]
+            yield case([z()], 250, how + at + ["alone"])
+            others = [S.GList(10, [num(rng), num(rng)]), S.GRange(20, 22, num(rng))]
+            for pos in range(3):
+                gs = list(others)
+                gs.insert(pos, z())
+                yield case(gs, rng.choice([None, 250, 0.5]), how + at + ["pos%d" % pos])
+        yield case([S.GList(0, [], byref=byref), S.GList(0, [num(rng)], byref=not byref), S.GList(1, [], byref=byref)], 7, how + ["at-0", "twice"])
+    for i in range(24 if tier == "quick" else 600):
+        groups = disjoint_groups(rng, rng.randint(0, 6), max_range=rng.choice([40, 400]))
+        rng.shuffle(groups)
+        tags = set()
+        for _ in range(rng.randint(1, 3)):
+            a = rng.choice([0, 0, rng.randrange(1, 300), rng.randrange(1, 65536)])
+            byref = rng.random() < 0.5
+            groups.insert(rng.randint(0, len(groups)), S.GList(a, [], byref=byref))
+            tags |= {"by-reference" if byref else "direct", "at-0" if a == 0 else "at-nonzero"}
+        yield case(groups, rng.choice([None, 500, 1000, 0.5]), sorted(tags) + ["random"])
 
 
 def hostile_cases(rng, tier):
@@ -597,6 +633,7 @@ def utf16_cases(rng, tier):
 
 def generate(rng, tier):
     yield from widths_cases(rng, tier)
+    yield from zero_length_cases(rng, tier)
     yield from simple_cases(rng, tier)
     yield from hostile_cases(rng, tier)
     yield from cmap_cases(rng, tier)
